@@ -1,11 +1,12 @@
 //! target: guard/src/rules/eval.rs
-// K5 / K5p / K6 / K7: CNF combinator, named-rule clause, unary-operator leaf kernel.
-// Child module of rules::eval => has access to the private leaf operations.
+//! requires: eval_common.rs
+// K5 / K5p / K6: CNF combinator, order independence, named-rule clause.
 #![allow(unused_imports, dead_code, unused_variables)]
+use super::verif_eval_common::*;
 use super::*;
+use crate::rules::path_value::{Location, MapValue, Path};
 use std::cell::Cell;
 use std::mem::forget;
-use crate::rules::path_value::{Location, MapValue, Path};
 
 macro_rules! proof {
     ($name:ident, $unwind:literal, $body:block) => {
@@ -20,168 +21,6 @@ macro_rules! proof {
     };
 }
 
-pub(super) fn p() -> Path {
-    Path(String::new(), Location { line: 0, col: 0 })
-}
-
-pub(super) fn any_status() -> Status {
-    let s: u8 = kani::any();
-    kani::assume(s < 3);
-    match s {
-        0 => Status::PASS,
-        1 => Status::FAIL,
-        _ => Status::SKIP,
-    }
-}
-
-// ---------------------------------------------------------------------------------------------
-// stub evaluation context: records what the code under test emits; `query`, `rule_status`
-// return what the harness planted. Scopes / traversal are NOT covered by harnesses using it.
-// ---------------------------------------------------------------------------------------------
-pub(super) const PASS: u8 = 0;
-pub(super) const FAIL: u8 = 1;
-pub(super) const SKIP: u8 = 2;
-pub(super) fn code(s: Status) -> u8 {
-    match s {
-        Status::PASS => PASS,
-        Status::FAIL => FAIL,
-        Status::SKIP => SKIP,
-    }
-}
-
-pub(super) struct Ctx {
-    pub(super) depth: i32,
-    pub(super) min_depth: i32,
-    pub(super) starts: u32,
-    pub(super) ends: u32,
-    // Disjunction records in emission order
-    pub(super) disj: [u8; 4],
-    pub(super) n_disj: usize,
-    // ClauseValueCheck records
-    pub(super) n_success: u32,
-    pub(super) n_dependent: u32,
-    pub(super) n_unary_fail: u32,
-    pub(super) n_cmp_fail: u32,
-    pub(super) n_in_fail: u32,
-    pub(super) n_noval: u32,
-    // GuardClauseBlockCheck (clause level) record
-    pub(super) n_block: u32,
-    pub(super) block_status: u8,
-    // planted answers
-    pub(super) rule: u8, // 0..2 status, 3 => Err
-    pub(super) rule_calls: u32,
-    pub(super) lhs: Option<Vec<QueryResult>>,
-    pub(super) rhs: Option<Vec<QueryResult>>,
-    pub(super) query_calls: u32,
-}
-
-impl Ctx {
-    pub(super) fn new() -> Ctx {
-        Ctx {
-            depth: 0,
-            min_depth: 0,
-            starts: 0,
-            ends: 0,
-            disj: [9; 4],
-            n_disj: 0,
-            n_success: 0,
-            n_dependent: 0,
-            n_unary_fail: 0,
-            n_cmp_fail: 0,
-            n_in_fail: 0,
-            n_noval: 0,
-            n_block: 0,
-            block_status: 9,
-            rule: 0,
-            rule_calls: 0,
-            lhs: None,
-            rhs: None,
-            query_calls: 0,
-        }
-    }
-    pub(super) fn balanced(&self) -> bool {
-        self.depth == 0 && self.min_depth == 0 && self.starts == self.ends
-    }
-}
-
-impl<'value> RecordTracer<'value> for Ctx {
-    fn start_record(&mut self, _context: &str) -> Result<()> {
-        self.depth += 1;
-        self.starts += 1;
-        Ok(())
-    }
-    fn end_record(&mut self, _context: &str, record: RecordType<'value>) -> Result<()> {
-        self.depth -= 1;
-        self.ends += 1;
-        if self.depth < self.min_depth {
-            self.min_depth = self.depth;
-        }
-        match &record {
-            RecordType::Disjunction(bc) => {
-                if self.n_disj < 4 {
-                    self.disj[self.n_disj] = code(bc.status);
-                }
-                self.n_disj += 1;
-            }
-            RecordType::GuardClauseBlockCheck(bc) => {
-                self.n_block += 1;
-                self.block_status = code(bc.status);
-            }
-            RecordType::ClauseValueCheck(cc) => match cc {
-                ClauseCheck::Success => self.n_success += 1,
-                ClauseCheck::DependentRule(_) => self.n_dependent += 1,
-                ClauseCheck::Unary(_) => self.n_unary_fail += 1,
-                ClauseCheck::Comparison(_) => self.n_cmp_fail += 1,
-                ClauseCheck::InComparison(_) => self.n_in_fail += 1,
-                ClauseCheck::NoValueForEmptyCheck(_) => self.n_noval += 1,
-                _ => {}
-            },
-            _ => {}
-        }
-        forget(record);
-        Ok(())
-    }
-}
-
-impl<'value, 'loc: 'value> EvalContext<'value, 'loc> for Ctx {
-    fn query(&mut self, _query: &'value [QueryPart<'loc>]) -> Result<Vec<QueryResult>> {
-        self.query_calls += 1;
-        // first call = the clause's LHS, second = a query RHS
-        if self.query_calls == 1 {
-            match self.lhs.take() {
-                Some(v) => Ok(v),
-                None => Err(Error::RetrievalError(String::new())),
-            }
-        } else {
-            match self.rhs.take() {
-                Some(v) => Ok(v),
-                None => Err(Error::RetrievalError(String::new())),
-            }
-        }
-    }
-    fn find_parameterized_rule(&mut self, _rule_name: &str) -> Result<&'value ParameterizedRule<'loc>> {
-        Err(Error::MissingValue(String::new()))
-    }
-    fn root(&mut self) -> Rc<PathAwareValue> {
-        Rc::new(PathAwareValue::Null(p()))
-    }
-    fn rule_status(&mut self, _rule_name: &'value str) -> Result<Status> {
-        self.rule_calls += 1;
-        match self.rule {
-            0 => Ok(Status::PASS),
-            1 => Ok(Status::FAIL),
-            2 => Ok(Status::SKIP),
-            _ => Err(Error::MissingValue(String::new())),
-        }
-    }
-    fn resolve_variable(&mut self, _variable_name: &'value str) -> Result<Vec<QueryResult>> {
-        Err(Error::MissingValue(String::new()))
-    }
-    fn add_variable_capture_key(&mut self, _variable_name: &'value str, _key: Rc<PathAwareValue>) -> Result<()> {
-        Ok(())
-    }
-}
-
 // ---------------------------------------------------------------------------------------------
 // K5: CNF combinator
 // ---------------------------------------------------------------------------------------------
@@ -191,7 +30,6 @@ struct Leaf {
     alt: usize,
 }
 
-pub(super) const ERR: u8 = 3;
 
 /// documented status of one `or` line given the leaf statuses (PASS iff one alternative passed,
 /// FAIL iff none passed and one failed, else SKIP)
@@ -491,166 +329,6 @@ proof!(k6_named_rule, 4, {
     forget(r);
     forget(gnc);
 });
-
-// ---- K7: unary leaf kernel -----------------------------------------------------------------------
-// kinds of a single query result
-pub(super) const V_NULL: u8 = 0;
-pub(super) const V_INT: u8 = 1;
-pub(super) const V_FLOAT: u8 = 2;
-pub(super) const V_BOOL: u8 = 3;
-pub(super) const V_STR_EMPTY: u8 = 4;
-pub(super) const V_STR_X: u8 = 5;
-pub(super) const V_LIST_EMPTY: u8 = 6;
-pub(super) const V_LIST_1: u8 = 7;
-pub(super) const V_MAP_EMPTY: u8 = 8;
-pub(super) const V_CHAR: u8 = 9;
-pub(super) const V_UNRESOLVED: u8 = 10;
-
-pub(super) fn mk_value(kind: u8) -> PathAwareValue {
-    match kind {
-        V_NULL => PathAwareValue::Null(p()),
-        V_INT => PathAwareValue::Int((p(), kani::any())),
-        V_FLOAT => PathAwareValue::Float((p(), kani::any())),
-        V_BOOL => PathAwareValue::Bool((p(), kani::any())),
-        V_STR_EMPTY => PathAwareValue::String((p(), String::new())),
-        V_STR_X => {
-            let mut s = String::new();
-            let c: char = kani::any();
-            kani::assume((c as u32) < 0x80);
-            s.push(c);
-            PathAwareValue::String((p(), s))
-        }
-        V_LIST_EMPTY => PathAwareValue::List((p(), Vec::new())),
-        V_LIST_1 => {
-            let mut v = Vec::with_capacity(1);
-            v.push(PathAwareValue::Int((p(), kani::any())));
-            PathAwareValue::List((p(), v))
-        }
-        V_MAP_EMPTY => PathAwareValue::Map((
-            p(),
-            MapValue { keys: Vec::new(), values: indexmap::IndexMap::with_hasher(crate::verif_stubs::random_state_stub()) },
-        )),
-        _ => PathAwareValue::Char((p(), kani::any())),
-    }
-}
-
-pub(super) fn mk_qr(kind: u8, literal: bool) -> QueryResult {
-    if kind == V_UNRESOLVED {
-        QueryResult::UnResolved(UnResolved {
-            traversed_to: Rc::new(PathAwareValue::Null(p())),
-            remaining_query: String::new(),
-            reason: None,
-        })
-    } else if literal {
-        QueryResult::Literal(Rc::new(mk_value(kind)))
-    } else {
-        QueryResult::Resolved(Rc::new(mk_value(kind)))
-    }
-}
-
-pub(super) const R_FALSE: u8 = 0;
-pub(super) const R_TRUE: u8 = 1;
-pub(super) const R_ERR: u8 = 2;
-pub(super) fn ob(r: Result<bool>) -> u8 {
-    let v = match &r {
-        Ok(true) => R_TRUE,
-        Ok(false) => R_FALSE,
-        Err(_) => R_ERR,
-    };
-    forget(r);
-    v
-}
-pub(super) fn neg(v: u8) -> u8 {
-    match v {
-        R_TRUE => R_FALSE,
-        R_FALSE => R_TRUE,
-        _ => R_ERR,
-    }
-}
-
-/// laws relating an operation to its two negations (operator-level `!op` and prefix `not`)
-fn negation_laws<O: Fn(&QueryResult) -> Result<bool> + Copy>(op: O, q: &QueryResult, plain: u8) {
-    // operator-level negation
-    assert!(ob(not_operation(op)(q)) == neg(plain));
-    // prefix negation (inverse = true) and no prefix (inverse = false)
-    assert!(ob(inverse_operation(op, false)(q)) == plain);
-    assert!(ob(inverse_operation(op, true)(q)) == neg(plain));
-    // prefix and operator-level negation coincide; double negation restores the original
-    assert!(ob(inverse_operation(not_operation(op), false)(q)) == neg(plain));
-    assert!(ob(inverse_operation(not_operation(op), true)(q)) == plain);
-}
-
-macro_rules! k7 {
-    ($name:ident, $kind:expr) => {
-        proof!($name, 4, {
-            let literal: bool = kani::any();
-            let q = mk_qr($kind, literal);
-            let k: u8 = $kind;
-            let resolved = k != V_UNRESOLVED;
-            // exists <=> resolved
-            let ex = ob(exists_operation(&q));
-            assert!(ex == if resolved { R_TRUE } else { R_FALSE });
-            negation_laws(exists_operation, &q, ex);
-            // empty: strings/lists/maps by length, unresolved = true, numbers = evaluation error;
-            // for bool / null / char the docs are silent: only consistency of the negations is asserted
-            let em = ob(element_empty_operation(&q));
-            match k {
-                V_STR_EMPTY | V_LIST_EMPTY | V_MAP_EMPTY | V_UNRESOLVED => assert!(em == R_TRUE),
-                V_STR_X | V_LIST_1 => assert!(em == R_FALSE),
-                V_INT | V_FLOAT => assert!(em == R_ERR),
-                _ => {}
-            }
-            negation_laws(element_empty_operation, &q, em);
-            // is_T <=> kind
-            let is_s = ob(is_string_operation(&q));
-            assert!(is_s == if k == V_STR_EMPTY || k == V_STR_X { R_TRUE } else { R_FALSE });
-            negation_laws(is_string_operation, &q, is_s);
-            let is_l = ob(is_list_operation(&q));
-            assert!(is_l == if k == V_LIST_EMPTY || k == V_LIST_1 { R_TRUE } else { R_FALSE });
-            negation_laws(is_list_operation, &q, is_l);
-            let is_m = ob(is_struct_operation(&q));
-            assert!(is_m == if k == V_MAP_EMPTY { R_TRUE } else { R_FALSE });
-            negation_laws(is_struct_operation, &q, is_m);
-            let is_i = ob(is_int_operation(&q));
-            assert!(is_i == if k == V_INT { R_TRUE } else { R_FALSE });
-            negation_laws(is_int_operation, &q, is_i);
-            let is_f = ob(is_float_operation(&q));
-            assert!(is_f == if k == V_FLOAT { R_TRUE } else { R_FALSE });
-            negation_laws(is_float_operation, &q, is_f);
-            let is_b = ob(is_bool_operation(&q));
-            assert!(is_b == if k == V_BOOL { R_TRUE } else { R_FALSE });
-            negation_laws(is_bool_operation, &q, is_b);
-            let is_n = ob(is_null_operation(&q));
-            assert!(is_n == if k == V_NULL { R_TRUE } else { R_FALSE });
-            negation_laws(is_null_operation, &q, is_n);
-            kani::cover!(literal);
-            kani::cover!(!literal);
-            forget(q);
-        });
-    };
-}
-//@ k7_unary_null props=C01,C03 tier=quick expect=pass fns=exists_operation,element_empty_operation,is_string_operation,is_list_operation,is_struct_operation,is_int_operation,is_float_operation,is_bool_operation,is_null_operation,not_operation,inverse_operation :: unary leaf kernel on a Null value (Resolved or Literal, symbolic): truth table of the 9 unary operators + negation laws (!op, prefix not, double negation; errors never inverted into success)
-k7!(k7_unary_null, V_NULL);
-//@ k7_unary_int props=C01,C03,C08 tier=quick expect=pass fns=exists_operation,element_empty_operation,is_int_operation,not_operation,inverse_operation :: unary leaf kernel on an Int (any i64): `empty` on a number is an evaluation error, also under every negation
-k7!(k7_unary_int, V_INT);
-//@ k7_unary_float props=C01,C03 tier=thorough expect=pass fns=exists_operation,element_empty_operation,is_float_operation,not_operation,inverse_operation :: unary leaf kernel on a Float (any f64)
-k7!(k7_unary_float, V_FLOAT);
-//@ k7_unary_bool props=C01,C03 tier=thorough expect=pass fns=exists_operation,element_empty_operation,is_bool_operation,not_operation,inverse_operation :: unary leaf kernel on a Bool
-k7!(k7_unary_bool, V_BOOL);
-//@ k7_unary_str_empty props=C01,C03 tier=quick expect=pass fns=exists_operation,element_empty_operation,is_string_operation,not_operation,inverse_operation :: unary leaf kernel on the empty string: `empty` holds
-k7!(k7_unary_str_empty, V_STR_EMPTY);
-//@ k7_unary_str_x props=C01,C03 tier=quick expect=pass fns=exists_operation,element_empty_operation,is_string_operation,not_operation,inverse_operation :: unary leaf kernel on a 1-char string (symbolic ASCII char): `empty` does not hold
-k7!(k7_unary_str_x, V_STR_X);
-//@ k7_unary_list_empty props=C01,C03 tier=quick expect=pass fns=exists_operation,element_empty_operation,is_list_operation,not_operation,inverse_operation :: unary leaf kernel on an empty list
-k7!(k7_unary_list_empty, V_LIST_EMPTY);
-//@ k7_unary_list_1 props=C01,C03 tier=thorough expect=pass fns=exists_operation,element_empty_operation,is_list_operation,not_operation,inverse_operation :: unary leaf kernel on a 1-element list
-k7!(k7_unary_list_1, V_LIST_1);
-//@ k7_unary_map_empty props=C01,C03 tier=thorough expect=pass fns=exists_operation,element_empty_operation,is_struct_operation,not_operation,inverse_operation :: unary leaf kernel on an empty map
-k7!(k7_unary_map_empty, V_MAP_EMPTY);
-//@ k7_unary_char props=C01,C03 tier=thorough expect=pass fns=exists_operation,element_empty_operation,not_operation,inverse_operation :: unary leaf kernel on a Char
-k7!(k7_unary_char, V_CHAR);
-//@ k7_unary_unresolved props=C01,C03 tier=quick expect=pass fns=exists_operation,element_empty_operation,not_operation,inverse_operation :: unary leaf kernel on an UnResolved entry: not exists, counts as empty, no is_T holds
-k7!(k7_unary_unresolved, V_UNRESOLVED);
 
 //@ k_eval_twin props=C01,C02,C03,C04,C08 tier=quick expect=fail fns=eval_guard_named_clause :: vacuity twin for the eval.rs family: same stub context and construction as k6, final assert(false) must be reached
 proof!(k_eval_twin, 4, {
